@@ -67,6 +67,11 @@ type handler1 struct {
 	// asleep/awake state and guards pktBuffer (packets are sent from both the
 	// MQTT-SN and the MQTT receive loops).
 	snSendMutex sync.Mutex
+	// TopicIDs of the topics the gateway is registering at the client right
+	// now (REGISTER sent, REGACK not received yet), guarded by
+	// registrationMutex.
+	registrationMutex    sync.Mutex
+	pendingRegistrations map[string]uint16
 	// Sleeping client's keepalive, used by the MQTT-SN receive loop only.
 	sleepDuration     uint16
 	sleepPingerCancel context.CancelFunc
@@ -127,6 +132,8 @@ func newHandler(cfg *handlerConfig, predefinedTopics topics.PredefinedTopics,
 		transactions:     transactions.NewTransactionStore(),
 
 		brokerTransactions: transactions.NewTransactionStore(),
+
+		pendingRegistrations: make(map[string]uint16),
 	}
 
 	return h
@@ -318,9 +325,28 @@ func (h *handler1) handleBrokerPublish(ctx context.Context, mqPublish *mqPkts.Pu
 		topicIDType = snPkts1.TIT_SHORT
 		needsRegister = false
 	} else {
+		// The lookup and the allocation of a new TopicID must be atomic with
+		// respect to the registration in brokerPublishTransactionBase.regack().
+		h.registrationMutex.Lock()
 		var ok bool
 		topicID, topicIDType, ok = h.findTopicID(mqPublish.TopicName)
-		needsRegister = !ok
+		if !ok {
+			needsRegister = true
+			topicIDType = snPkts1.TIT_REGISTERED
+			// A registration of this topic can be in progress already (more
+			// messages on a new topic in a row) => use its TopicID, one
+			// topic must not get two TopicIDs.
+			if topicID, ok = h.pendingRegistrations[mqPublish.TopicName]; !ok {
+				var err error
+				topicID, err = h.newTopicID()
+				if err != nil {
+					h.registrationMutex.Unlock()
+					return err
+				}
+				h.pendingRegistrations[mqPublish.TopicName] = topicID
+			}
+		}
+		h.registrationMutex.Unlock()
 	}
 
 	snPublish := snPkts1.NewPublish(topicID, mqPublish.Payload, mqPublish.Dup,
@@ -378,13 +404,7 @@ func (h *handler1) handleBrokerPublish(ctx context.Context, mqPublish *mqPkts.Pu
 	var snPkt snPkts.Packet
 	var nextState transactionState
 	if needsRegister {
-		topicID, err := h.newTopicID()
-		if err != nil {
-			return err
-		}
-
 		// snPublish will be sent after REGACK is received
-		snPublish.TopicID = topicID
 		transaction.SetSNPublish(snPublish)
 
 		snRegister := snPkts1.NewRegister(topicID, mqPublish.TopicName)
